@@ -265,7 +265,7 @@ func c09SnapshotSelfChecked(r *core.Report) {
 				okLen := false
 				if node != nil {
 					for _, fc := range g.FactsAtPos(node, ix.Pos(), ix.End()) {
-						if fc.Tag == nil && strings.Contains(core.ExprStr(fc.Expr), "len("+o.Name()+")") {
+						if fc.Tag == nil && (strings.Contains(core.ExprStr(fc.Expr), "len("+o.Name()+")") || mentionsLenOfVia(w, fc.Expr, o)) {
 							okLen = true
 						}
 					}
